@@ -1,6 +1,6 @@
 /-
-Color488Code, square sizes `L ≥ 1`: an independent family of `n − k = 8L² − 4` generators.
-Selected: the X and the Z generator of every face centre in `[0, 8L)²` (the seam rows are copies)
+Color488Code, all sizes `Lx, Ly ≥ 1`: an independent family of `n − k = 8·Lx·Ly − 4` generators.
+Selected: the X and the Z generator of every face centre in `[0, 8Lx) × [0, 8Ly)` (the seam rows are copies)
 except the green octagon `(0, 4)` and the blue octagon `(4, 0)`.  Triangular single-qubit probes
 (each qubit lies on one square, one green and one blue octagon):
 
@@ -23,30 +23,30 @@ namespace Panqec.Color488Code
 open Panqec.Lat2D Panqec.Color
 
 /-- canonical face centres -/
-def IsC (L : Nat) (x y : Int) : Prop :=
-  x % 4 = 0 ∧ y % 4 = 0 ∧ 0 ≤ x ∧ x < 8 * (L : Int) ∧ 0 ≤ y ∧ y < 8 * (L : Int)
+def IsC (Lx Ly : Nat) (x y : Int) : Prop :=
+  x % 4 = 0 ∧ y % 4 = 0 ∧ 0 ≤ x ∧ x < 8 * (Lx : Int) ∧ 0 ≤ y ∧ y < 8 * (Ly : Int)
 
-def canonFaces (L : Nat) : List Coord :=
-  grid (pyRangeStep 0 (8 * (L : Int)) 4) (pyRangeStep 0 (8 * (L : Int)) 4)
+def canonFaces (Lx Ly : Nat) : List Coord :=
+  grid (pyRangeStep 0 (8 * (Lx : Int)) 4) (pyRangeStep 0 (8 * (Ly : Int)) 4)
 
-def selFaces (L : Nat) : List Coord := (canonFaces L).filter fun c => c != [0, 4] && c != [4, 0]
+def selFaces (Lx Ly : Nat) : List Coord := (canonFaces Lx Ly).filter fun c => c != [0, 4] && c != [4, 0]
 
 /-- the selected stabilizer locations -/
-def sel (L : Nat) : List Coord := both (selFaces L)
+def sel (Lx Ly : Nat) : List Coord := both (selFaces Lx Ly)
 
-theorem mem_canonFaces {L : Nat} {q : Coord} :
-    q ∈ canonFaces L ↔ ∃ x y, q = [x, y] ∧ IsC L x y := by
+theorem mem_canonFaces {Lx Ly : Nat} {q : Coord} :
+    q ∈ canonFaces Lx Ly ↔ ∃ x y, q = [x, y] ∧ IsC Lx Ly x y := by
   unfold canonFaces IsC
   simp only [mem_grid, mem_pyRangeStep4]
   constructor
   · rintro ⟨x, y, hx, hy, rfl⟩; refine ⟨x, y, rfl, ?_⟩; omega
   · rintro ⟨x, y, rfl, h⟩; exact ⟨x, y, by omega, by omega, rfl⟩
 
-theorem nodup_canonFaces (L : Nat) : (canonFaces L).Nodup :=
+theorem nodup_canonFaces (Lx Ly : Nat) : (canonFaces Lx Ly).Nodup :=
   nodup_grid (nodup_pyRangeStep _ _ _ (by decide)) (nodup_pyRangeStep _ _ _ (by decide))
 
-theorem mem_sel {L : Nat} {s : Coord} :
-    s ∈ sel L ↔ ∃ x y p, s = [x, y, p] ∧ IsC L x y ∧ ¬ (x = 0 ∧ y = 4) ∧ ¬ (x = 4 ∧ y = 0) ∧
+theorem mem_sel {Lx Ly : Nat} {s : Coord} :
+    s ∈ sel Lx Ly ↔ ∃ x y p, s = [x, y, p] ∧ IsC Lx Ly x y ∧ ¬ (x = 0 ∧ y = 4) ∧ ¬ (x = 4 ∧ y = 0) ∧
       (p = 0 ∨ p = 1) := by
   unfold sel selFaces
   rw [mem_both]
@@ -67,10 +67,10 @@ theorem mem_sel {L : Nat} {s : Coord} :
       · exact Or.inl rfl
       · exact Or.inr rfl
 
-theorem nodup_sel (L : Nat) : (sel L).Nodup :=
-  nodup_both ((nodup_canonFaces L).sublist List.filter_sublist)
+theorem nodup_sel (Lx Ly : Nat) : (sel Lx Ly).Nodup :=
+  nodup_both ((nodup_canonFaces Lx Ly).sublist List.filter_sublist)
 
-theorem sel_subset {L : Nat} : ∀ s ∈ sel L, s ∈ stabs L L := by
+theorem sel_subset {Lx Ly : Nat} : ∀ s ∈ sel Lx Ly, s ∈ stabs Lx Ly := by
   intro s hs
   obtain ⟨x, y, p, rfl, hc, _, _, hp⟩ := mem_sel.mp hs
   rw [mem_stabs']
@@ -83,18 +83,18 @@ theorem length_range4' (L : Nat) : (pyRangeStep 0 (8 * (L : Int)) 4).length = 2 
   omega
 
 /-- `#sel + k = n` -/
-theorem length_sel {L : Nat} (hL : 1 ≤ L) : (sel L).length + 4 = 8 * (L * L) := by
+theorem length_sel {Lx Ly : Nat} (hx : 1 ≤ Lx) (hy : 1 ≤ Ly) : (sel Lx Ly).length + 4 = 8 * (Lx * Ly) := by
   unfold sel
   rw [Color666PlanarCode.length_both]
-  have h := length_remove_two (canonFaces L) [0, 4] [4, 0] (nodup_canonFaces L)
+  have h := length_remove_two (canonFaces Lx Ly) [0, 4] [4, 0] (nodup_canonFaces Lx Ly)
     (mem_canonFaces.mpr ⟨0, 4, rfl, by unfold IsC; omega⟩)
     (mem_canonFaces.mpr ⟨4, 0, rfl, by unfold IsC; omega⟩) (by decide)
-  have h2 : (canonFaces L).length = 4 * (L * L) := by
+  have h2 : (canonFaces Lx Ly).length = 4 * (Lx * Ly) := by
     unfold canonFaces
-    rw [length_grid, length_range4']
+    rw [length_grid, length_range4', length_range4']
     rw [Nat.mul_mul_mul_comm]
   unfold selFaces
-  have h3 : 1 ≤ L * L := Nat.mul_pos hL hL
+  have h3 : 1 ≤ Lx * Ly := Nat.mul_pos hx hy
   omega
 
 /-! ### probes and ranks -/
@@ -110,71 +110,72 @@ def probe (s : Coord) : Coord × Pauli :=
   | [x, y, p] => (probeQubit x y, if p = 0 then Pauli.Z else Pauli.X)
   | _ => ([], Pauli.I)
 
-def rankI (L : Nat) (x y : Int) : Int :=
-  (if 8 ≤ x then 16 * (L : Int) + x / 2 else y / 2) + (if (x + y) % 8 = 0 then 1 else 0)
+def rankI (Lx Ly : Nat) (x y : Int) : Int :=
+  (if 8 ≤ x then 16 * (Ly : Int) + x / 2 else y / 2) + (if (x + y) % 8 = 0 then 1 else 0)
 
-def rankOf (L : Nat) (s : Coord) : Nat :=
+def rankOf (Lx Ly : Nat) (s : Coord) : Nat :=
   match s with
-  | [x, y, _] => (rankI L x y).toNat
+  | [x, y, _] => (rankI Lx Ly x y).toNat
   | _ => 0
 
-theorem rankI_spec (L : Nat) (x y : Int) :
-    (8 ≤ x ∧ (x + y) % 8 = 0 ∧ rankI L x y = 16 * (L : Int) + x / 2 + 1) ∨
-    (8 ≤ x ∧ (x + y) % 8 ≠ 0 ∧ rankI L x y = 16 * (L : Int) + x / 2) ∨
-    (x < 8 ∧ (x + y) % 8 = 0 ∧ rankI L x y = y / 2 + 1) ∨
-    (x < 8 ∧ (x + y) % 8 ≠ 0 ∧ rankI L x y = y / 2) := by
+theorem rankI_spec (Lx Ly : Nat) (x y : Int) :
+    (8 ≤ x ∧ (x + y) % 8 = 0 ∧ rankI Lx Ly x y = 16 * (Ly : Int) + x / 2 + 1) ∨
+    (8 ≤ x ∧ (x + y) % 8 ≠ 0 ∧ rankI Lx Ly x y = 16 * (Ly : Int) + x / 2) ∨
+    (x < 8 ∧ (x + y) % 8 = 0 ∧ rankI Lx Ly x y = y / 2 + 1) ∨
+    (x < 8 ∧ (x + y) % 8 ≠ 0 ∧ rankI Lx Ly x y = y / 2) := by
   unfold rankI
   by_cases h1 : 8 ≤ x <;> by_cases h2 : (x + y) % 8 = 0 <;> simp [h1, h2] <;> omega
 
 /-- the seven kinds of probes, each a (wrapped, but in range) corner of its own face -/
-theorem probeQubit_spec {L : Nat} (hL : 1 ≤ L) {x y : Int} (hc : IsC L x y)
+theorem probeQubit_spec {Lx Ly : Nat} (hx : 1 ≤ Lx) (hy : 1 ≤ Ly) {x y : Int} (hc : IsC Lx Ly x y)
     (h1 : ¬ (x = 0 ∧ y = 4)) (h2 : ¬ (x = 4 ∧ y = 0)) :
     (8 ≤ x ∧ (x + y) % 8 = 0 ∧
-      probeQubit x y = [(x + -1) % (8 * (L : Int)), (y + 1) % (8 * (L : Int))]) ∨
+      probeQubit x y = [(x + -1) % (8 * (Lx : Int)), (y + 1) % (8 * (Ly : Int))]) ∨
     (8 ≤ x ∧ (x + y) % 8 ≠ 0 ∧
-      probeQubit x y = [(x + -3) % (8 * (L : Int)), (y + 1) % (8 * (L : Int))]) ∨
+      probeQubit x y = [(x + -3) % (8 * (Lx : Int)), (y + 1) % (8 * (Ly : Int))]) ∨
     (x = 0 ∧ y = 0 ∧
-      probeQubit x y = [(x + 1) % (8 * (L : Int)), (y + 1) % (8 * (L : Int))]) ∨
+      probeQubit x y = [(x + 1) % (8 * (Lx : Int)), (y + 1) % (8 * (Ly : Int))]) ∨
     (x = 0 ∧ 8 ≤ y ∧ (x + y) % 8 = 0 ∧
-      probeQubit x y = [(x + 1) % (8 * (L : Int)), (y + -1) % (8 * (L : Int))]) ∨
+      probeQubit x y = [(x + 1) % (8 * (Lx : Int)), (y + -1) % (8 * (Ly : Int))]) ∨
     (x = 0 ∧ 12 ≤ y ∧ (x + y) % 8 ≠ 0 ∧
-      probeQubit x y = [(x + 1) % (8 * (L : Int)), (y + -3) % (8 * (L : Int))]) ∨
+      probeQubit x y = [(x + 1) % (8 * (Lx : Int)), (y + -3) % (8 * (Ly : Int))]) ∨
     (x = 4 ∧ 4 ≤ y ∧ (x + y) % 8 = 0 ∧
-      probeQubit x y = [(x + -1) % (8 * (L : Int)), (y + -1) % (8 * (L : Int))]) ∨
+      probeQubit x y = [(x + -1) % (8 * (Lx : Int)), (y + -1) % (8 * (Ly : Int))]) ∨
     (x = 4 ∧ 8 ≤ y ∧ (x + y) % 8 ≠ 0 ∧
-      probeQubit x y = [(x + -1) % (8 * (L : Int)), (y + -3) % (8 * (L : Int))]) := by
+      probeQubit x y = [(x + -1) % (8 * (Lx : Int)), (y + -3) % (8 * (Ly : Int))]) := by
   unfold IsC at hc
   unfold probeQubit
-  by_cases hx : 8 ≤ x
+  by_cases hx8 : 8 ≤ x
   · by_cases h8 : (x + y) % 8 = 0
-    · left; refine ⟨hx, h8, ?_⟩
-      rw [if_pos hx, if_pos h8, emod_small (k := x + -1) (by omega) (by omega),
+    · left; refine ⟨hx8, h8, ?_⟩
+      rw [if_pos hx8, if_pos h8, emod_small (k := x + -1) (by omega) (by omega),
         emod_small (k := y + 1) (by omega) (by omega)]; rfl
-    · right; left; refine ⟨hx, h8, ?_⟩
-      rw [if_pos hx, if_neg h8, emod_small (k := x + -3) (by omega) (by omega),
+    · right; left; refine ⟨hx8, h8, ?_⟩
+      rw [if_pos hx8, if_neg h8, emod_small (k := x + -3) (by omega) (by omega),
         emod_small (k := y + 1) (by omega) (by omega)]; rfl
   · by_cases hx0 : x = 0
     · by_cases h8 : (x + y) % 8 = 0
       · by_cases hy0 : y = 0
         · right; right; left; refine ⟨hx0, hy0, ?_⟩
-          rw [if_neg hx, if_pos hx0, if_pos h8, if_pos hy0, hx0, hy0,
-            emod_small (k := 0 + 1) (by omega) (by omega)]; rfl
+          rw [if_neg hx8, if_pos hx0, if_pos h8, if_pos hy0, hx0, hy0,
+            emod_small (k := 0 + 1) (m := 8 * (Lx : Int)) (by omega) (by omega),
+            emod_small (k := 0 + 1) (m := 8 * (Ly : Int)) (by omega) (by omega)]; rfl
         · right; right; right; left; refine ⟨hx0, by omega, h8, ?_⟩
-          rw [if_neg hx, if_pos hx0, if_pos h8, if_neg hy0, hx0,
+          rw [if_neg hx8, if_pos hx0, if_pos h8, if_neg hy0, hx0,
             emod_small (k := 0 + 1) (by omega) (by omega),
             emod_small (k := y + -1) (by omega) (by omega)]; rfl
       · right; right; right; right; left; refine ⟨hx0, by omega, h8, ?_⟩
-        rw [if_neg hx, if_pos hx0, if_neg h8, hx0,
+        rw [if_neg hx8, if_pos hx0, if_neg h8, hx0,
           emod_small (k := 0 + 1) (by omega) (by omega),
           emod_small (k := y + -3) (by omega) (by omega)]; rfl
     · have hx4 : x = 4 := by omega
       by_cases h8 : (x + y) % 8 = 0
       · right; right; right; right; right; left; refine ⟨hx4, by omega, h8, ?_⟩
-        rw [if_neg hx, if_neg hx0, if_pos h8, hx4,
+        rw [if_neg hx8, if_neg hx0, if_pos h8, hx4,
           emod_small (k := 4 + -1) (by omega) (by omega),
           emod_small (k := y + -1) (by omega) (by omega)]; rfl
       · right; right; right; right; right; right; refine ⟨hx4, by omega, h8, ?_⟩
-        rw [if_neg hx, if_neg hx0, if_neg h8, hx4,
+        rw [if_neg hx8, if_neg hx0, if_neg h8, hx4,
           emod_small (k := 4 + -1) (by omega) (by omega),
           emod_small (k := y + -3) (by omega) (by omega)]; rfl
 
